@@ -352,7 +352,9 @@ def gen_const(rng, kinds=("str", "int", "float", "bool", "hex", "bin", "ts")):
         return ("int", rng.choice([0, 1, -1, 5, 10, 80, 443, 65535, 1000, -42, 2 ** 31, 123456789012, 2 ** 53, 2 ** 53 + 1, 2 ** 63, -2 ** 64 - 1,
                                    10 ** 30, 10 ** 400 + 7]))
     if k == "float":
-        x = rng.choice([0.5, 1.0, -1.5, 3.25, 100.0, 0.001, 12345.678, -0.25, 2.0, 0.0000001, 123456789.5])
+        # (also magnitudes at which Python's repr switches to exponent notation, 1e16 and above / below 1e-4: the pattern grammar has none)
+        x = rng.choice([0.5, 1.0, -1.5, 3.25, 100.0, 0.001, 12345.678, -0.25, 2.0, 0.0000001, 123456789.5, 1e16, 1e22, -3e16, 123456789e15, 9007199254740993.0, 1e15,
+                        0.00001, 1e100])
         return ("float", x, _float_text(x))
     if k == "bool":
         return ("bool", rng.random() < 0.5)
